@@ -191,6 +191,7 @@ def showObs (o : Obs) : String := s!"{o.ans},len={o.len},time={o.time},empty={if
 def showCq (bits : Nat) : CQRun.Out → String
   | .added => "ok" | .rejected => "panic" | .cancelDone => "ok" | .badHandle => "bad-handle"
   | .fetched v t => s!"{v % 2 ^ bits}@{t}" | .empty => "panic" | .internal => "internal"
+  | .peeked none => "none" | .peeked (some t) => s!"{t}"
 
 def showOut (bits : Nat) : CQMem.Out → String
   | .cq o => showCq bits o
